@@ -24,12 +24,15 @@ LEVEL_TEXT = ("Machine-checked proof (Coq, closed under the global context; the 
               "the model is tied to sftp_server.py/sftp_file.py by running the real client against the real server "
               "with the server's reads and hash-object calls logged and compared with the model's definitions "
               "(vm_compute) every run, and the digests compared with hashlib.")
-LEVEL_NOTE = ("Trusted: hand-written model coq/Model/C32.v (validated only by the correspondence run); hash objects "
+LEVEL_NOTE = ("Trusted: hand-written model coq/Model/C32.v (validated by the correspondence run; its constants - read "
+              "chunk size, minimum block size 256 - and the loop tests / counter updates it mirrors are re-read from "
+              "the AST of _check_file by gen/c32.py on every run, fail-closed, and enter the proofs); hash objects "
               "modelled as hash(concatenation of update() arguments); handle.read modelled as the default "
               "SFTPHandle.read over a regular file (full reads, empty bytes at EOF; a handle answering SFTP_EOF or an "
               "error code gets a status reply, not modelled); handle lookup / algorithm selection / reply framing "
               "are outside the model.")
-TECHNIQUE = "Coq proof (fuelled nested loop with proved fuel bound, induction) + vm_compute trace correspondence"
+TECHNIQUE = ("Coq proof (fuelled nested loop with proved fuel bound, induction) + AST translator for constants and "
+             "loop statements + vm_compute trace correspondence")
 
 CHUNK = 65536
 WATCHDOG = 10.0
@@ -120,15 +123,17 @@ class Rig:
 
 
 def chunk_from_source(repo):
-    """The read chunk size of _check_file (the theorems hold for every chunk > 0, so a different
-    constant is not a violation; the model is run with the one the source uses)."""
-    import re
+    """The read chunk size of _check_file as the translator gen/c32.py reads it from the AST (the
+    theorems hold for every chunk > 0, so a different constant is not a violation; the model is
+    run with the one the source uses).  A translator failure is reported by ctx.prove()."""
+    import importlib.util
     try:
-        src = open(os.path.join(repo, "paramiko", "sftp_server.py")).read()
-        body = src[src.index("def _check_file"):src.index("def _convert_pflags")]
-        m = re.search(r"chunklen\s*=\s*min\(\s*blocklen(?:\s*-\s*count)?\s*,\s*(\d+)\s*\)", body)
-        return int(m.group(1)) if m else CHUNK
-    except (OSError, ValueError):
+        spec = importlib.util.spec_from_file_location(
+            "gen_c32", os.path.join(os.path.dirname(os.path.dirname(os.path.abspath(__file__))), "gen", "c32.py"))
+        mod = importlib.util.module_from_spec(spec)
+        spec.loader.exec_module(mod)
+        return mod.constants(repo)["chunk"]
+    except Exception:  # noqa
         return CHUNK
 
 
@@ -324,7 +329,9 @@ def run(ctx):
                 "%.0f s watchdog; a case is non-trivial when distinct and at least one block is hashed" % WATCHDOG)
     ctx.trusted += ["model coq/Model/C32.v is hand-written; tied to SFTPServer._check_file by this run: per-digest "
                     "read trace (offset, requested length) of the real server == model (vm_compute), digests == hashlib",
-                    "hash objects modelled as hash of the concatenated update() arguments (hashlib's contract)"]
+                    "hash objects modelled as hash of the concatenated update() arguments (hashlib's contract)",
+                    "gen/c32.py (AST of _check_file -> chunk size, minimum block size, loop tests and counter updates; "
+                    "fail-closed)"]
     ctx.assumptions += ["served handle is the default SFTPHandle.read over a regular file that does not change "
                         "during the request"]
     ctx.prove()
@@ -343,9 +350,13 @@ def run(ctx):
             rig_box[0].close()
         uninstall()
         shutil.rmtree(root, ignore_errors=True)
-    bad = ctx.model_mismatches("run_check", "(Z * Z * Z * Z * Z)",
-                               [(coq((chunk, c["size"], c["start"], c["length"], c["block_size"])), canon)
-                                for c, canon in cases], shard=200)
+    try:
+        bad = ctx.model_mismatches("run_check", "(Z * Z * Z * Z * Z)",
+                                   [(coq((chunk, c["size"], c["start"], c["length"], c["block_size"])), canon)
+                                    for c, canon in cases], shard=200)
+    except Exception as e:  # noqa  (the oracle's findings above are reported regardless)
+        ctx.disagree("model evaluation failed (run_check): " + str(e)[-600:])
+        bad = []
     for i in bad[:3]:
         ctx.disagree("_check_file's reads / digest count differ from the model", case=cases[i][0],
                      impl=cases[i][1][:60])
